@@ -20,7 +20,7 @@ let cutsrv inp impl =
     let f = bytes_of_hex frame in
     let k = int_of_string k in
     let sc = if script = "-" then [||] else Array.of_list (String.split_on_char ',' script) in
-    let evs = server_run (script_handler sc) 0 (send_of send) (take k f) in
+    let evs = server_run (sh_handler (script_of_tokens sc)) O (send_of send) (take k f) in
     let m = String.concat ";" (List.map event_str evs) in
     (* P, on what the implementation did: inside the frame no handler call and no
        response, just the close; at the end of the frame exactly as many calls as
